@@ -817,3 +817,159 @@ class C45AbsTriggers(Base):
         d = dict(self.n)
         d['_state'] = {'done': sorted(self.done)}
         return d
+
+
+class C25DataStore(Base):
+    """Oracle A: after every data-store update each pooled task is in the
+    store with equal state. Oracle B: a client mirror fed with the published
+    deltas equals the scheduler's store, with matching checksums."""
+    NAME = 'c25'
+    PID = 'C25'
+    KEYS = ('workflow', 'tasks', 'task_proxies', 'jobs', 'families',
+            'family_proxies', 'edges')
+
+    def __init__(self, case, phase):
+        super().__init__(case, phase)
+        self.mirror = None
+        self.pending = []
+
+    def after_start(self, drv, schd):
+        q = schd.server.publish_queue
+        orig_put = q.put
+        mon = self
+
+        def put(item, *a, **kw):
+            try:
+                mon.on_publish(schd, item)
+            except Exception:
+                import traceback
+                drv.bus.emit_error('c25.on_publish',
+                                   traceback.format_exc(limit=8))
+            return orig_put(item, *a, **kw)
+        q.put = put
+
+    def store(self, schd):
+        return schd.data_store_mgr.data[schd.data_store_mgr.workflow_id]
+
+    def on_publish(self, schd, item):
+        from cylc.flow import data_store_mgr as D
+        self.n['publishes'] += 1
+        if self.mirror is None:
+            # the initial published snapshot: the entire workflow
+            msg = schd.data_store_mgr.get_entire_workflow()
+            wire = type(msg)()
+            wire.ParseFromString(msg.SerializeToString())
+            self.mirror = {
+                D.WORKFLOW: wire.workflow,
+                D.TASKS: {e.id: e for e in wire.tasks},
+                D.TASK_PROXIES: {e.id: e for e in wire.task_proxies},
+                D.JOBS: {e.id: e for e in wire.jobs},
+                D.FAMILIES: {e.id: e for e in wire.families},
+                D.FAMILY_PROXIES: {e.id: e for e in wire.family_proxies},
+                D.EDGES: {e.id: e for e in wire.edges},
+            }
+            return
+        for topic, delta, _ in item:
+            if topic != D.ALL_DELTAS.encode():
+                continue
+            wire = type(delta)()
+            wire.ParseFromString(delta.SerializeToString())
+            for key in self.KEYS:
+                sub = getattr(wire, key)
+                if sub.ListFields():
+                    D.apply_delta(key, sub, self.mirror)
+                    self.n['deltas_applied'] += 1
+                    if hasattr(sub, 'checksum') and sub.checksum:
+                        att = 'id' if key == D.EDGES else 'stamp'
+                        mine = D.generate_checksum(
+                            [getattr(e, att)
+                             for e in self.mirror[key].values()])
+                        self.n['checksums_compared'] += 1
+                        if mine != sub.checksum:
+                            self.v(f'checksum-mismatch:{key}',
+                                   f'published checksum of {key} does not '
+                                   'match the client mirror after applying '
+                                   'the delta', {'key': key})
+        self.compare(schd)
+
+    def compare(self, schd):
+        from cylc.flow import data_store_mgr as D
+        data = self.store(schd)
+        self.n['mirror_comparisons'] += 1
+        for key in self.KEYS:
+            if key == D.WORKFLOW:
+                continue
+            mine, theirs = self.mirror[key], data[key]
+            if set(mine) != set(theirs):
+                self.v(f'mirror-membership:{key}',
+                       f'client mirror {key} differs from the scheduler '
+                       f'store: only in mirror '
+                       f'{sorted(set(mine) - set(theirs))[:3]}, only in '
+                       f'store {sorted(set(theirs) - set(mine))[:3]}',
+                       {'key': key})
+                continue
+            for eid, e in theirs.items():
+                self.n['elements_compared'] += 1
+                if mine[eid] != e:
+                    diff = [f.name for f, v in e.ListFields()
+                            if getattr(mine[eid], f.name) != v]
+                    diff += [f.name for f, v in mine[eid].ListFields()
+                             if getattr(e, f.name) != v and f.name not in diff]
+                    self.v(f'mirror-element-differs:{key}:' +
+                           ','.join(sorted(diff)[:3]),
+                           f'{eid}: fields {sorted(diff)} differ between the '
+                           'client mirror and the scheduler store',
+                           {'id': eid, 'fields': sorted(diff),
+                            'store': str(e)[:600],
+                            'mirror': str(mine[eid])[:600]})
+                    return
+
+    def after_data_store_update(self, drv, schd):
+        from cylc.flow import data_store_mgr as D
+        from cylc.flow.util import deserialise_set
+        data = self.store(schd)
+        tps = data[D.TASK_PROXIES]
+        self.n['store_updates'] += 1
+        for itask in schd.pool.get_tasks():
+            self.n['pool_tasks_checked'] += 1
+            node = tps.get(itask.tokens.id)
+            tid = itask.identity
+            if node is None:
+                self.v('pool-task-missing-from-store',
+                       f'{tid} is in the pool but not in the data store '
+                       'after the update', {'id': tid})
+                continue
+            st = itask.state
+            for fld, want in (('state', st.status),
+                              ('is_held', bool(st.is_held)),
+                              ('is_queued', bool(st.is_queued)),
+                              ('is_runahead', bool(st.is_runahead))):
+                got = getattr(node, fld)
+                if got != want:
+                    self.v(f'store-field-differs:{fld}',
+                           f'{tid}: data store {fld}={got!r}, pool '
+                           f'{want!r}', {'id': tid})
+            if deserialise_set(node.flow_nums) != set(itask.flow_nums):
+                self.v('store-field-differs:flow_nums',
+                       f'{tid}: data store flows {node.flow_nums}, pool '
+                       f'{sorted(itask.flow_nums)}', {'id': tid})
+            want_out = {trg: bool(done) for trg, _, done in st.outputs}
+            got_out = {o.label: bool(o.satisfied)
+                       for o in node.outputs.values()}
+            if got_out and want_out != got_out:
+                bad = sorted(k for k in want_out
+                             if want_out[k] != got_out.get(k))
+                self.v('store-field-differs:outputs',
+                       f'{tid}: outputs {bad} differ (store '
+                       f'{ {k: got_out.get(k) for k in bad} }, pool '
+                       f'{ {k: want_out[k] for k in bad} })', {'id': tid})
+            want_pre = sorted(
+                (k.get_id(), k.output, bool(v))
+                for pr in st.prerequisites for k, v in pr.items())
+            got_pre = sorted(
+                (c.task_proxy, c.req_state, bool(c.satisfied))
+                for pr in node.prerequisites for c in pr.conditions)
+            if want_pre != got_pre:
+                self.v('store-field-differs:prerequisites',
+                       f'{tid}: prerequisite satisfaction in the store '
+                       f'{got_pre[:4]} != pool {want_pre[:4]}', {'id': tid})
